@@ -151,7 +151,9 @@ func (h *Session) findOrCreateHostWithLock(addr Addr) (host *Host, found bool) {
 	h.HostTable.Table[addr.IP] = host
 
 	// link host to macEntry
+	macEntry.Row.Lock() // the host list is iterated under the row lock
 	macEntry.HostList = append(macEntry.HostList, host)
+	macEntry.Row.Unlock()
 	return host, false
 }
 
@@ -160,9 +162,12 @@ func (h *Session) deleteHost(ip netip.Addr) {
 		if Logger.IsDebug() {
 			Logger.Msg("delete host").IP("ip", ip).Struct(host).Write()
 		}
+		host.MACEntry.Row.Lock() // the host list is iterated under the row lock
 		host.MACEntry.unlink(host)
+		last := len(host.MACEntry.HostList) == 0
+		host.MACEntry.Row.Unlock()
 		delete(h.HostTable.Table, ip)
-		if len(host.MACEntry.HostList) == 0 { // delete if last host
+		if last { // delete if last host
 			h.MACTable.delete(host.MACEntry.MAC)
 		}
 		return
